@@ -60,7 +60,7 @@ def _arg(a):
     if t == "uint":
         return "AUint %s" % _z(a.get("v", "0"))
     if t == "str":
-        return "AStr %s %s %s" % (_bytes(a.get("s") or []), _b(a.get("b32")), _b(a.get("tf")))
+        return "AStr %s %s %s %s" % (_bytes(a.get("s") or []), _b(a.get("b32")), _z(a.get("blen", 0)), _b(a.get("tf")))
     if t == "bytes":
         return "ABytes %s" % _b(a.get("json"))
     if t == "funds":
@@ -125,6 +125,8 @@ def signature(rec):
             cls = "collections-string-key-nul"
         elif o.get("panic_int") or "integer overflow" in nt:
             cls = "sdkmath-integer-overflow"
+        elif "cannot convert slice with length" in nt:
+            cls = "slice-to-array-conversion"
         elif "slice bounds out of range" in nt:
             cls = "slice-bounds"
         elif "invalid denom" in nt:
